@@ -550,22 +550,25 @@ def assignAll (data : List (Text × Py)) : List (Text × Text) → PModel → Ex
     | none => .error .keyError
     | some v => assignAll data r (m.setAttr a v)
 
-/-- `Model().construct_from_json_file(fname, build_code)` -/
+/-- `self.construct_from_json_file(fname, build_code)`: `self` is the receiving `Model` object with whatever it
+    held before (a fresh `Model()`, the persisting object itself after further changes, an object that loaded
+    another file earlier); the four attributes are *rebound* to the decoded dicts. -/
 def constructWith (cfg : Cfg) (reads : List (Text × Text)) (rt : ExtTest) (lower : Text → Text)
-    (parse : Text → Names → Py) (f : File) (fname : Text) (buildCodeFlag : Bool) : Except Crash PModel :=
+    (parse : Text → Names → Py) (self : PModel) (f : File) (fname : Text) (buildCodeFlag : Bool) :
+    Except Crash PModel :=
   match f.read (rt.opener lower fname) with
   | .error e => .error e
   | .ok j =>
     match decode cfg j with
     | .dict data =>
-      (assignAll data reads PModel.empty).map fun m => if buildCodeFlag then buildCode parse m else m
+      (assignAll data reads self).map fun m => if buildCodeFlag then buildCode parse m else m
     | _ => .error .typeError
 
 def persist (cfg : Cfg) (lower : Text → Text) (m : PModel) (fname : Text) : Except Crash File :=
   persistWith cfg Gen.C12.persistWrites writerTest lower m fname
-def construct (cfg : Cfg) (lower : Text → Text) (parse : Text → Names → Py) (f : File) (fname : Text)
-    (buildCodeFlag : Bool) : Except Crash PModel :=
-  constructWith cfg Gen.C12.readAssigns readerTest lower parse f fname buildCodeFlag
+def construct (cfg : Cfg) (lower : Text → Text) (parse : Text → Names → Py) (self : PModel) (f : File)
+    (fname : Text) (buildCodeFlag : Bool) : Except Crash PModel :=
+  constructWith cfg Gen.C12.readAssigns readerTest lower parse self f fname buildCodeFlag
 
 /-! ### the rest of the history: evaluate, set_cell_value -/
 
